@@ -23,8 +23,6 @@ import (
 	"testing"
 	"time"
 
-	"github.com/hydraide/hydraide/app/verifhook"
-
 	"verifharness/rig"
 )
 
@@ -189,7 +187,6 @@ func TestCheck(t *testing.T) {
 		}
 	}
 	c.Extra("hooks", []string{hookVigil})
-	_ = verifhook.Hits
-	c.MinNontrivial = c.N(150, 3000)
+	c.MinNontrivial = c.N(150, 2500)
 	c.MaxInconclusiveFrac = 0.05
 }
